@@ -5,6 +5,7 @@ import SMV.Props.C15
 import SMV.Props.RefineVeto
 import SMV.Props.RefineData
 import SMV.Props.C13Complete
+import SMV.Props.RefineReply
 namespace SMV.Witness
 open SMV
 
@@ -218,6 +219,20 @@ example : ∃ d0 df rs, dynNew exM.code (partsOf exM) 7 = some d0 ∧
   · rw [hrs]; decide
   · rw [hfs]; decide
 
+open Refine in
+/-- the abstract replies along a history of the concrete machine: `go` accepted (A → Dd); `go` with `g2`
+    false: `GuardFailed` naming `g2` (the first blocker, after `g1` passed); `go` vetoed by `w1` with an
+    `InvalidTransition` kind: the error names the state the machine is in (`Dd`) and the event; `stop` accepted
+    (Dd → A); `stop` in `A`: no edge, `InvalidTransition { from: A, event: stop }`. By `replies_refine` these
+    are the emitted wrapper's replies. -/
+example : specReplies exM A
+    [ (⟨fun n => n == g1 || n == g2, fun _ => none⟩, go),
+      (⟨fun n => n == g1, fun _ => none⟩, go),
+      (⟨fun _ => true, fun n => if n == w1 then some .invalidTransition else none⟩, go),
+      (⟨fun _ => false, fun _ => none⟩, stop),
+      (⟨fun _ => false, fun _ => none⟩, stop) ] =
+    [ .ok, .err (.guardFailed (.name g2) (.name go)), .err (.invalidTransition (.name Dd) (.name go)), .ok,
+      .err (.invalidTransition (.name A) (.name stop)) ] := by decide
 
 /-- the concrete definition satisfies the parser's rules and its machine the validator's: the hypotheses of
     `macro_accepts` are satisfiable, and it yields what `ex_parses` / `ex_validates` computed -/
